@@ -28,7 +28,7 @@ GENERATED: list[str] = []
 ANSI = re.compile(r"\x1b\[[0-9;]*m")
 GH_RE = re.compile(r"^::error line=(-?\d+),col=(-?\d+),title=Refurb ([A-Z]{3,4})(\d+),file=(.*?)::(.*)$")
 
-MSG_ATOMS = ["Replace `x` with `y`", "Use `a.b()` instead of `c`", "`", "``", "100%", "%s", "a::b", "x, y", "ünï©ode", "\"q\"", "'q'", "\x1b[31m", "\\1", "\\g<2>", "tab\there", " ", "", "long " * 40, "`a` `b` `c`", "{x}", "日本語"]
+MSG_ATOMS = ["Replace `x` with `y`", "Use `a.b()` instead of `c`", "`", "``", "100%", "%s", "a::b", "x, y", "ünï©ode", "\"q\"", "'q'", "\x1b[31m", "\\1", "\\g<2>", "tab\there", " ", "", "long " * 40, "`a` `b` `c`", "{x}", "日本語", "two  spaces", "x \t y", "nb\u00a0sp", "\u3000wide", "str(\"Hello,   world\")", " lead", "trail  "]
 FILES = ["a.py", "sub/b c.py", "ünï.py", "x:y.py", "deep/er/f.py", "a,b.py", "w::z.py"]
 
 
@@ -198,6 +198,38 @@ def run(ctx) -> None:
                             "how": "build refurb.error.Error subclasses with the given prefix/code/line/column/msg/filename and call refurb.main.format_errors twice: Settings(quiet=True) with color False and True; strip \\x1b[...m",
                         },
                     )
+            # ---- the property itself for the GitHub rendering, on the implementation's own function: the annotation of one diagnostic
+            # carries that diagnostic's line, column (1-based), code, file (relative to the working directory) and its message VERBATIM
+            gh_viol = 0
+            sg = Settings(format="github", quiet=True)
+            seen_items: set[str] = set()
+            for kind, its, _param in [m for m in meta if m[0] == "format" and m[2][0] == "github"]:
+                for it in its:
+                    key = json.dumps(it, sort_keys=True)
+                    if it["k"] != "diag" or key in seen_items:
+                        continue
+                    seen_items.add(key)
+                    res.bump("github_vs_item_in_process")
+                    out1 = format_errors(to_errors([it]), sg)
+                    relf = str(Path(it["file"]).resolve().relative_to(Path.cwd()))
+                    plain1 = format_errors(to_errors([it]), Settings(quiet=True))
+                    problems = []
+                    if not out1.endswith("::" + it["msg"]):
+                        problems.append("message")
+                    if not out1.startswith(f"::error line={it['line']},col={it['col'] + 1},title=Refurb {it['prefix']}{it['code']},"):
+                        problems.append("line/col/code")
+                    if f",file={relf}::" not in out1:
+                        problems.append("file")
+                    if "\n" in out1:
+                        problems.append("more than one line")
+                    if problems and gh_viol < 3:
+                        gh_viol += 1
+                        res.violate(
+                            f"the GitHub annotation of a diagnostic does not carry the same {', '.join(problems)} as the plain rendering",
+                            {"kind": "github-differs-from-plain", "what": problems},
+                            {"item": it, "plain": plain1, "github": out1,
+                             "how": "build a refurb.error.Error subclass instance with the given prefix/code/line/column/msg/filename and call refurb.main.format_errors([e], Settings(format='github', quiet=True)) and format_errors([e], Settings(quiet=True))"},
+                        )
             # ---- the hint rule on the implementation's own function: present iff at least one diagnostic and not quiet —
             # whatever else is in the list (mypy/refurb text lines, --debug dumps) and in whatever position
             for kind, its, _param in [m for m in meta if m[0] == "format" and m[2][0] == "plain"][: 150 if ctx.quick else 2000]:
